@@ -29,6 +29,10 @@ var counts = map[string]int{}
 
 func count(k string) { counts[k]++ }
 
+// sampled counts the samples taken per scenario family (so that the few
+// sample slots show different kinds of cases).
+var sampled = map[string]int{}
+
 func TestCheck(t *testing.T) {
 	rep := report.New("C11", "exploration")
 	rep.Meta(
@@ -87,10 +91,10 @@ func TestCheck(t *testing.T) {
 	rep.Bound("claim_name_variants", nClaims)
 	rep.Bound("update_pair_set", len(variants))
 	if thorough {
-		rep.Bound("schema_feature_product", "spec x status x collision-style{2} x nameMax{-,30,100,63} x required{4} x CEL{5} x oneOf x preserve x descriptions x top-level-extras")
+		rep.Bound("schema_feature_product", "spec x status x collision-style{2} x nameMax{-,30,100,63} x required{4} x CEL{5} x oneOf x preserve x descriptions x top-level-extras x typeless-properties")
 		rep.Bound("xrd_level_product", "layout{10} x per-version schema{plain,rich,nil,malformed,{}} x claim{9} x deletePolicy{3} x updatePolicy{3} x conversion{3} x extras{2}")
 	} else {
-		rep.Bound("schema_feature_product", "spec x status x nameMax{-,30,100} x required{4} x CEL{none,spec,all} x decorations{none,all,oneOf+descriptions}")
+		rep.Bound("schema_feature_product", "spec x status x nameMax{-,30,100} x required{4} x CEL{none,spec,all} x decorations{none,all,oneOf+descriptions,typeless-properties}")
 		rep.Bound("xrd_level_product", "layout{10} x per-version schema{plain,rich,nil} x claim{7} x deletePolicy{2} x updatePolicy{2} x conversion{2} x extras{2}")
 	}
 
@@ -147,15 +151,18 @@ func schemaBody(r *explore.Run, rep *report.R, scenario string, sp, st int, thor
 		vs.Preserve = r.Bool("preserve-unknown-fields")
 		vs.Desc = r.Bool("descriptions")
 		vs.TopExtra = r.Bool("top-level extras")
+		vs.Loose = r.Bool("typeless properties")
 	} else {
 		vs.NameMax = r.Free(3, "metadata.name maxLength (-,30,100)")
 		vs.Required = r.Free(4, "required (none, spec, spec+status+top, top)")
 		vs.CEL = r.Free(3, "CEL rules (none, spec, all)")
-		switch r.Free(3, "decorations (none, all, oneOf+descriptions)") {
+		switch r.Free(4, "decorations (none, all, oneOf+descriptions, typeless properties)") {
 		case 1:
 			vs.OneOf, vs.Preserve, vs.Desc, vs.TopExtra = true, true, true, true
 		case 2:
 			vs.OneOf, vs.Desc = true, true
+		case 3:
+			vs.Loose = true
 		}
 	}
 	evalRender(r, rep, scenario, xrdSpec{Layout: 0, Schemas: []verSchema{vs}, Claim: clFull})
@@ -276,7 +283,9 @@ func evalRender(r *explore.Run, rep *report.R, scenario string, x xrdSpec) {
 		}
 
 		class := classifyCRD(crd)
-		count("k8s-class:" + class)
+		for _, c := range strings.Split(class, ",") {
+			count("k8s-class-of-version-schema:" + c)
+		}
 		root := toJ(crd.Spec.Versions[0].Schema.OpenAPIV3Schema)
 		outcome = append(outcome, K+":ok:"+class+":top-required="+canon(root["required"])+":top-rules="+canon(root["x-kubernetes-validations"]))
 	}
@@ -298,7 +307,8 @@ func evalRender(r *explore.Run, rep *report.R, scenario string, x xrdSpec) {
 		nt = report.Hash(scenario, x.String())
 	}
 	rep.Eval(scenario, report.Hash(outcome), nt)
-	if nt != "" && rep.WantSample() && len(r.Choices) > 0 && r.Choices[len(r.Choices)-1] != 0 {
+	if fam := strings.SplitN(scenario, "/", 2)[0]; nt != "" && sampled[fam] < 2 && rep.WantSample() {
+		sampled[fam]++
 		rep.Sample(map[string]any{"scenario": scenario, "xrd": x.String(), "outcome": outcome, "choices": append([]int{}, r.Choices...)})
 	}
 }
@@ -429,7 +439,8 @@ func createBody(r *explore.Run, rep *report.R) {
 		nt = report.Hash("create", variants[i].name)
 	}
 	rep.Eval("admission/create", report.Hash("create", v.Allowed, collision, other, len(cl.dryWrites)), nt)
-	if nt != "" && rep.WantSample() {
+	if nt != "" && sampled["create"] < 1 && rep.WantSample() {
+		sampled["create"]++
 		rep.Sample(map[string]any{"scenario": "admission/create", "xrd": variants[i].name, "allowed": v.Allowed, "message": v.Message, "choices": append([]int{}, r.Choices...)})
 	}
 }
@@ -546,7 +557,8 @@ func updateBody(r *explore.Run, rep *report.R) {
 		nt = report.Hash("update", variants[oi].name, variants[ni].name, crdsExist)
 	}
 	rep.Eval("admission/update", report.Hash("update", sortedKeys(got), v.Allowed, forbidden, collision, other, permitted), nt)
-	if nt != "" && rep.WantSample() && oi == 0 {
+	if nt != "" && oi == 0 && sampled["update"] < 1 && rep.WantSample() {
+		sampled["update"]++
 		rep.Sample(map[string]any{"scenario": "admission/update", "old": variants[oi].name, "new": variants[ni].name, "ValidateUpdate_errors": sortedKeys(got), "webhook_allowed": v.Allowed, "choices": append([]int{}, r.Choices...)})
 	}
 }
